@@ -80,7 +80,26 @@ pub fn run(ctx: &mut Ctx) {
             lines.push("||example.com^".to_string());
             r.shuffle(&mut lines);
             let debug = r.chance(1, 2);
-            let e = build(&lines, debug, r.chance(1, 2), 0);
+            let e = if r.chance(1, 4) {
+                // resources delivered late and one by one, after every page has been asked once
+                // without them (answers must follow the current resources, not earlier lookups)
+                let mut fs = adblock::lists::FilterSet::new(debug);
+                fs.add_filters(&lines, ParseOptions::default());
+                let mut e = adblock::Engine::from_filter_set(fs, r.chance(1, 2));
+                for (host, _) in PAGES {
+                    let _ = e.url_cosmetic_resources(&format!("https://{}/p", host));
+                }
+                for res in crate::mon::c08::scriptlet_resources() {
+                    let _ = e.add_resource(res.to_resource());
+                }
+                e
+            } else {
+                build(&lines, debug, r.chance(1, 2), 0)
+            };
+            // one engine in three is replaced by its twin loaded from serialized bytes: the same
+            // reference applies to it
+            let reloaded = r.chance(1, 3);
+            let e = if reloaded { crate::mon::c08::roundtrip(&e, r.chance(1, 2)).expect("round trip of own buffer") } else { e };
             let parsed: Vec<&CosRule> = rules.iter().filter(|x| parse_filter(&x.line, true, ParseOptions::default()).is_ok()).collect();
             let ghf: Vec<_> = gh.iter().filter_map(|l| parse_network(l, ParseOptions::default())).collect();
             let mut rm = RegexManager::default();
